@@ -50,6 +50,16 @@ def run_one(d, checks):
     finally:
         sh("git -C %s checkout -- ." % REPO)
     assert sh("git -C %s status --porcelain" % REPO).stdout.strip() == ""
+    # a run of a subset of the checks is merged into the earlier results
+    rp = os.path.join(d, "result.json")
+    if os.path.exists(rp):
+        old = json.load(open(rp))
+        merged = dict(old.get("checks", {}))
+        merged.update(res["checks"])
+        res["checks"] = merged
+        res["caught_by"] = [c for c in sorted(merged) if merged[c]["exit"] == 1]
+        if "baseline_pass_fail" not in res and "baseline_pass_fail" in old:
+            res["baseline_pass_fail"] = old["baseline_pass_fail"]
     with open(os.path.join(d, "result.json"), "w") as f:
         json.dump(res, f, indent=1, ensure_ascii=False)
     inconclusive = [c for c, v in res["checks"].items() if v["exit"] == 2]
@@ -79,6 +89,8 @@ def main():
                 for c in json.load(open(rp)).get("caught_by", []):
                     if c not in checks:
                         checks.append(c)
+            if os.path.exists(rp) and len(json.load(open(rp)).get("checks", {})) < len(ALL):
+                checks = ALL  # not yet run against everything
             res = run_one(d, checks)
             if res is not None and not res["caught_by"]:
                 missed.append(name)
